@@ -137,6 +137,8 @@ def tpName : Val → String
   | .opaque "Decimal" _ => "decimal.Decimal"
   | .opaque "Pattern" _ => "re.Pattern"
   | .deque _ => "collections.deque"
+  | .mapOf "defaultdict" _ => "collections.defaultdict"
+  | .mapOf "OrderedDict" _ => "collections.OrderedDict"
   | v => typeName v
 
 /-- `data_is_sequence`: a real sequence (list, tuple; deque is a `Sequence` too), never str/bytes/bytearray. -/
@@ -163,6 +165,10 @@ def numParts : Val → Option (Flt × Flt)
   | .int i => some (.fin i 0, .fin 0 0)
   | .float f => some (f, .fin 0 0)
   | .complex re im => some (re, im)
+  | .sub _ (.bool b) => some (.fin (if b then 1 else 0) 0, .fin 0 0)   -- an instance of a user subclass of a number IS that number
+  | .sub _ (.int i) => some (.fin i 0, .fin 0 0)
+  | .sub _ (.float f) => some (f, .fin 0 0)
+  | .sub _ (.complex re im) => some (re, im)
   | _ => Option.none
 
 def fltEq (a b : Flt) : Bool := Flt.cmp a b == some .eq
